@@ -272,6 +272,26 @@ Section Lines.
       rewrite (render_root _ style g) by assumption; rewrite lines_rel_zip; reflexivity.
   Qed.
 
+  (* Node.format_iter called on the system root itself: it is never a line;
+     its children carry a connector iff add_self *)
+  Theorem root_format_lines a style g f add_self :
+    is_list_style a = false ->
+    resolve_style table default_style a = Ok style -> unpack style = Some g ->
+    FI f SRoot a add_self = Ok (zip_lines (rel_prefixes g add_self f) (pre_f f))
+    /\ length (rel_prefixes g add_self f) = length (pre_f f).
+  Proof.
+    intros NL R U. split; [|apply rel_prefixes_length].
+    unfold format_iter. rewrite NL. rewrite (render_root _ style g) by assumption.
+    rewrite lines_rel_zip. reflexivity.
+  Qed.
+
+  Theorem root_list_style_lines a f add_self :
+    is_list_style a = true -> FI f SRoot a add_self = Ok (map rend (pre_f f)).
+  Proof.
+    intros IL. unfold format_iter. rewrite IL. cbn [iter_ctxs].
+    rewrite <- map_map, ctxs_nodes_l. reflexivity.
+  Qed.
+
   Theorem list_style_lines a f anc last t add_self trepr ti :
     is_list_style a = true ->
     FI f (SNode (anc, last, t)) a add_self = Ok (map rend (node_branch add_self t))
